@@ -2,7 +2,7 @@ TUS = ['src/base/QXmppMessage.cpp', 'src/base/QXmppStanza.cpp', 'src/base/QXmppU
 MODELS = ['qt_core.c', 'qt_list.c', 'qt_dom.c', 'c17_models.c']
 KF = 'd12_jmi_callinvite'
 PUBLIC_FIELDS = ['e2ee_fallback_body', 'private_msg', 'stanza_id', 'stanza_ids2', 'origin_id', 'mix_user', 'mix_jid', 'mix_nick', 'eme']
-BOTH_FIELDS = ['fallback_marker']
+BOTH_FIELDS = ['fallback_marker', 'addresses']
 SENSITIVE_FIELDS = ['body', 'subject', 'thread', 'oob_url', 'stamp', 'receipt_id', 'receipt_request', 'attention', 'bob', 'muc_invitation', 'replace_id', 'markable',
                     'attach_id', 'spoiler', 'mix_invitation', 'trust_message', 'reaction', 'shared_file', 'file_sources', 'reply', 'jmi', 'call_invite']
 STR = 'every string value exactly 1 arbitrary UTF-16 unit (lengths concrete, contents symbolic), integers/date-time values full range'
@@ -16,7 +16,7 @@ FIELD_INSTANCES = ([I('f_' + f, 'h_f_' + f) for f in PUBLIC_FIELDS + BOTH_FIELDS
                    + [CASE('chat_state', k, 5, tiers=('quick', 'thorough') if k in (0, 4) else ('thorough',)) for k in range(5)]
                    + [CASE('marker', k, 3, tiers=('quick', 'thorough') if k == 1 else ('thorough',)) for k in range(3)])
 BIG = dict(unwind=40, object_bits=14, cdefs={'DOM_MAXCH': 36, 'DOM_MAXATTR': 24}, mem_gb=6, timeout_s=600)
-COMPOSITE = [I('allset', 'h_allset', bound='message with EVERY extension set at once (12 public + 24 sensitive elements); ' + STR, **BIG),
+COMPOSITE = [I('allset', 'h_allset', bound='message with EVERY extension set at once (13 elements in the public part, 25 in the sensitive part); ' + STR, **BIG),
              I('allset_all', 'h_allset_all', bound='message with every extension set, unsplit (SceAll); ' + STR, **BIG),
              I('envelope', 'h_envelope', bound='message with every extension set, real e2ee flow (outer stanza + SCE envelope content); ' + STR, **BIG),
              I('ni_public_full', 'h_ni_public_full', bound='every whitelisted field set x ANY subset of the 24 sensitive fields (2^24; chat state / marker any enum value): public serialization unchanged; ' + STR, **BIG),
